@@ -351,8 +351,9 @@ func checkEventTables(c *report.Ctx) {
 				okShape = false
 				continue
 			}
-			// which constant equals the parameter on this exit?
+			// which constant equals the parameter on this exit? (a literal, or an element of a local table of literals)
 			val := ""
+			var table []string
 			for _, ft := range facts.At(e.Ret.Block()) {
 				bo, ok := ft.Cond.(*ssa.BinOp)
 				if !ok || bo.Op != token.EQL || !ft.Val {
@@ -361,10 +362,16 @@ func checkEventTables(c *report.Ctx) {
 				if _, isP := bo.X.(*ssa.Parameter); isP {
 					if s, k := an.ConstString(bo.Y); k {
 						val = s
+					} else if t := tableConstStrings(bo.Y); len(t) > 0 {
+						table = t
 					}
 				}
 			}
-			if an.IsNil(e.Vals[0]) {
+			if an.IsNil(e.Vals[0]) && len(table) > 0 {
+				for _, t := range table {
+					accepted[t] = true
+				}
+			} else if an.IsNil(e.Vals[0]) {
 				if val == "" {
 					okShape = false // nil without a matched constant = accepts unknown events
 				}
@@ -779,4 +786,48 @@ func checkRegistrationData(c *report.Ctx) {
 		calls := an.CallsTo(f, "L/core.RegistrationService.SetFunctionMetadata")
 		c.Check("R-WIRE", an.FuncName(f)+"/function-metadata", "the function metadata handed to extensions equals what the platform was initialised with (field by field from the init request)", ok && len(calls) == 1, fpos(f), len(got), "metadata field <- init field: %v", got)
 	}
+}
+
+// tableConstStrings: v is an element (at a non-constant index) of a local array/slice literal whose elements are
+// all string constants; returns those constants.
+func tableConstStrings(v ssa.Value) []string {
+	var base ssa.Value
+	switch x := v.(type) {
+	case *ssa.Index:
+		if ld, ok := x.X.(*ssa.UnOp); ok && ld.Op == token.MUL {
+			base = ld.X
+		}
+	case *ssa.UnOp:
+		if ia, ok := x.X.(*ssa.IndexAddr); ok && x.Op == token.MUL {
+			base = ia.X
+		}
+	}
+	if sl, ok := base.(*ssa.Slice); ok {
+		base = sl.X
+	}
+	arr, ok := base.(*ssa.Alloc)
+	if !ok {
+		return nil
+	}
+	var out []string
+	for _, r := range *arr.Referrers() {
+		ea, ok := r.(*ssa.IndexAddr)
+		if !ok {
+			continue
+		}
+		if _, constIdx := ea.Index.(*ssa.Const); !constIdx {
+			continue
+		}
+		for _, r2 := range *ea.Referrers() {
+			if st, ok := r2.(*ssa.Store); ok && st.Addr == ssa.Value(ea) {
+				s, k := an.ConstString(st.Val)
+				if !k {
+					return nil
+				}
+				out = append(out, s)
+			}
+		}
+	}
+	sort.Strings(out)
+	return out
 }
